@@ -131,6 +131,21 @@ CLAIMED = {
         note="Hypotheses: no insanity flag; header names without ':'; numeric application Content-Length; callback contract; reply sent "
              "completely; no allocation failure. TLS, iovec/fd/pipe senders and socket faults outside the model (C07).",
         design="DESIGN.md §3 C04", technique="Lean 4 proof + regenerated constants + exhaustive/bounded/random differential + strict-parser oracle"),
+    "C05": dict(
+        engine="sm",
+        text="Lean 4 refinement proof: for every sequence of connection events (receive, EOF, read error, handle_idle under any "
+             "environment incl. timeout / pool exhaustion / allocation failure / epoll_ctl result / reader outcomes / shutdown, write "
+             "results, forced close, resume, stop, cleanup, queue_response outside the handler) and every application, the callback log "
+             "of the connection model (MHD_CONNECTION_STATE granularity, all entries into CLOSED) is accepted by the call-protocol "
+             "automaton (first call without upload and with a fresh context; upload calls contiguous, re-presenting only the declined "
+             "suffix; no call after a response is queued or the handler failed; completion exactly for presented requests, once, same "
+             "context, strings not released before it; start/close bracket everything) and is complete once the connection is freed. "
+             "Repair flags regenerated from connection.c are proof obligations; kernel-checked witnesses for the four repaired paths. "
+             "Tie: callback-sequence + white-box state correspondence on a bounded-exhaustive placement grid (12 request shapes x phase "
+             "boundaries x 8 client/daemon actions x 18 handler behaviours) + random histories; independent automaton oracle.",
+        note="Parsers abstracted to tokens; external select/epoll modes; upload completeness oracle-only; idle-loop fuel sufficiency not "
+             "proved (fault if exhausted, never observed); 102-Processing, upgrade, thread-per-connection shutdown path not modelled.",
+        design="DESIGN.md §3 C05", technique="Lean 4 refinement proof + predictive correspondence + independent automaton oracle"),
     "C06": dict(
         engine="loop",
         text="Lean 4 theorems over a model of the three event loops (connection lists in pointer order with prev resolved in the list that "
